@@ -55,7 +55,8 @@ def main():
         res["demo_on_patched"] = {"exit": rc, "tail": o[-900:]}
         res["ran"].append("demonstration on the patched tree: exit %d" % rc)
         # remove the demo test files before the baseline and the checks
-        sh("git clean -fdq -e out", wt)
+        # (not `git clean`: files the patch adds are untracked, too)
+        sh("find . -name 'zz*_test.go' -not -path './out/*' -delete; rm -rf zzdemo", wt)
         rc, o = sh("/verif/scripts/baseline.sh %s" % wt, wt)
         res["baseline"] = o.strip().splitlines()[0] if o.strip() else ""
         res["baseline_ok"] = rc == 0
